@@ -1,5 +1,6 @@
 import CollectionsC.Properties.C14Deque
 import CollectionsC.Properties.C07Deque
+import CollectionsC.Proofs.DequeZipSelf
 /-! # C08 (deque part) — a refused allocation is atomic
 
 "A refusal fired" is `(m.allocT d.triple).1 = false` for the allocator call the operation makes through the
@@ -150,19 +151,33 @@ theorem continue_refines (d : Deque) (m : Mem) (op : Op) (ops : List Op) (hi : d
   rw [b2, b1]
   exact ⟨by rw [r1], r2, r3⟩
 
-/-- **finding (only when the same deque is passed as both sides of a zip iterator)**: `zip_iter_add` tests
-"full?" before inserting and ignores the statuses of its two `add_at` calls; with `d1 == d2` and one free
-slot the second `add_at` has to grow by itself, and if that is refused the call still reports `CC_OK` with
-one of the two elements inserted — a swallowed refusal, not atomic.  Witness:
-`corpus/deque/defect_zip_alias_add_swallows_refusal.ops`; the generators keep refusals away from that call. -/
-theorem zip_alias_add_swallows_refusal :
-    (Deque.mk 3 4 0 3 [11, 12, 13, 0] .conf).Inv ∧
-    (Deque.zipAddSelf { index := 2 } (Deque.mk 3 4 0 3 [11, 12, 13, 0] .conf) 7 8 { sched := [true], live := 2 }).1 = .ok ∧
+/-- **the same deque as both sides of a zip iterator: all or nothing (repair D13; partial on finding D3).**
+`zip_iter_add` now checks the status of both `add_at` calls and takes the first element out again when the
+second fails.  With `d1 == d2` the second insertion may have to grow by itself; whatever is refused — the
+pre-test growth or that second growth — the call reports the error, the **content and the cursor are exactly
+as before** (only the capacity may have grown), invariant and ledger are intact; otherwise both elements are
+in place and the cursor has stepped on.  Hypotheses: both `add_at` calls are outside D3's front-half range. -/
+theorem zip_alias_add_all_or_nothing (it : Deque.Iter) (d : Deque) (x y : Nat) (m : Mem) (hi : d.Inv)
+    (hD3a : ¬ (1 ≤ it.index ∧ it.index + 1 ≤ d.size / 2))
+    (hD3b : ¬ (1 ≤ it.index ∧ it.index + 1 ≤ (d.size + 1) / 2)) :
+    (Deque.zipAddSelf it d x y m).2.2.1.Inv ∧ Deque.memSame d.triple (Deque.zipAddSelf it d x y m).2.2.2 m ∧
+    (((Deque.zipAddSelf it d x y m).1 = .ok ∧ it.index < d.size ∧
+        (Deque.zipAddSelf it d x y m).2.2.1.abs = (d.abs.insertIdx it.index x).insertIdx it.index y ∧
+        (Deque.zipAddSelf it d x y m).2.1 = { it with index := it.index + 1 }) ∨
+     ((Deque.zipAddSelf it d x y m).1 ≠ .ok ∧ (Deque.zipAddSelf it d x y m).2.2.1.abs = d.abs ∧
+        (Deque.zipAddSelf it d x y m).2.1 = it ∧
+        ((Deque.zipAddSelf it d x y m).1 = .errOutOfRange ↔ d.size ≤ it.index))) :=
+  Deque.zipAddSelf_refines_partial it d x y m hi hD3a hD3b
+
+/-- regression witness (`corpus/deque/regress_D13_zip_alias_add_refused.ops`): one free slot, the growth the
+second insertion needs is refused ⇒ `CC_ERR_ALLOC`, content unchanged; without refusal both are inserted -/
+theorem zip_alias_add_refusal_is_atomic :
+    (Deque.zipAddSelf { index := 2 } (Deque.mk 3 4 0 3 [11, 12, 13, 0] .conf) 7 8 { sched := [true], live := 2 }).1 = .errAlloc ∧
     (Deque.zipAddSelf { index := 2 } (Deque.mk 3 4 0 3 [11, 12, 13, 0] .conf) 7 8 { sched := [true], live := 2 }).2.2.1.abs
-      = [11, 12, 7, 13] ∧
-    (Deque.zipAddSelf { index := 2 } (Deque.mk 3 4 0 3 [11, 12, 13, 0] .conf) 7 8 { sched := [true], live := 2 }).2.2.2.nrefused = 1 ∧
-    (Spec.DequeSpec.zipAddSelf [11, 12, 13] { pos := 2 } 7 8).2.1 = [11, 12, 8, 7, 13] :=
-  Deque.zipAddSelf_swallows_refusal
+      = [11, 12, 13] ∧
+    (Deque.zipAddSelf { index := 2 } (Deque.mk 3 4 0 3 [11, 12, 13, 0] .conf) 7 8 { live := 2 }).2.2.1.abs
+      = [11, 12, 8, 7, 13] :=
+  Deque.zipAddSelf_refusal_is_atomic
 
 /-- non-vacuity: an exactly full, wrapped deque; the first growth is refused (blocked, unchanged), the
 second succeeds -/
